@@ -10,10 +10,25 @@ TRACE_TLA = os.path.join(SPEC, 'rainflow', 'Trace_Rainflow.tla')
 TRACE_CFG = os.path.join(SPEC, 'rainflow', 'Trace_Rainflow.cfg')
 
 
-def _code_obs(kind, sig, cuts):
+def _code_obs(kind, sig, cuts, stepwise_map=False):
     try:
-        det = rf.run_chunked(kind, sig, cuts)
-        return rf.project(det, kind), det
+        bad = []
+        if stepwise_map and kind != 'F':
+            # the chunk bookkeeping is queried after EVERY call (streaming use), not only at the end
+            done = []
+
+            def per_step(det):
+                done.append(1)
+                ok, b = rf.chunk_map_ok(det, sig, list(cuts[:len(done)]))
+                if not ok:
+                    bad.append({'after_chunk': len(done), **b})
+            det = rf.run_chunked(kind, sig, cuts, per_step=per_step)
+        else:
+            det = rf.run_chunked(kind, sig, cuts)
+        p = rf.project(det, kind)
+        if bad:
+            p['chunk_map_error'] = bad[0]
+        return p, det
     except Exception as ex:  # the code under test raised: that is an observation, not a harness failure
         return {'raised': repr(ex)}, None
 
@@ -32,7 +47,10 @@ def _replay_blocks(blocks):
         for kind, key in (('3', 'd3'), ('4', 'd4'), ('F', 'dF')):
             m = st[key]
             exp = rf.model_obsF(m, cuts) if kind == 'F' else rf.model_obs34(m)
-            got, det = _code_obs(kind, fed, cuts)
+            got, det = _code_obs(kind, fed, cuts, stepwise_map=len(cuts) >= 3)
+            cm_err = got.pop('chunk_map_error', None) if isinstance(got, dict) else None
+            if cm_err:
+                viol.append(('chunk_local_index (queried after every chunk) maps a reported index to the wrong chunk/position', {'detector': kind, 'signal': fed, 'chunks': cuts}, None, cm_err))
             if kind == 'F':
                 got = {**got, 'chunks': ()} if 'raised' not in got else got
             if got != exp:
